@@ -74,6 +74,34 @@ Definition disjoint_scopes (sc : scopes) (universe : list table) : bool :=
 Definition fork_state_new (S : flags) (captured : table) : flags := mark S captured.
 Definition child_prologue_old (captured : table) : list act := [Mark captured].
 
+(* GoRoutine's start-up (goroutine.go).
+   Before the repair (7d20e5f5) the NEW goroutine evaluated parentCtx.symbols.FindNextScope() itself, which
+   consults (cachedNextScope) and may fill (setCachedNextScope) the next-scope cache fields of the launcher's
+   CURRENT scope table: a table that belongs to the launcher and is not marked shared, whose cache the
+   launcher's own Get/IsConstant calls fill without any lock.
+   Repaired code: goByteCode resolves that scope before the go statement (an action of the launcher before
+   the fork); the new goroutine's start-up touches no table of the launcher. *)
+Definition child_startup_old (launcher_scope : table) : list act := [Read launcher_scope].
+Definition child_startup (launcher_scope : table) : list act := [].
+Definition tag (w : tid) (l : list act) : list (tid * act) := map (fun a => (w, a)) l.
+
+Inductive interleave {A} : list A -> list A -> list A -> Prop :=
+| il_nil : interleave [] [] []
+| il_l x a b c : interleave a b c -> interleave (x :: a) b (x :: c)
+| il_r x a b c : interleave a b c -> interleave a (x :: b) (x :: c).
+
+(* the property for the table layer: with the child's action list (start-up included) no schedule of
+   well-scoped launcher and child bodies races *)
+Definition statement_with (startup : table -> list act) : Prop :=
+  forall (sc : scopes) (U : list table) (S0 : flags) (sp : table) (ilP ilC : list act) (il : list (tid * act)),
+    disjoint_scopes sc U = true -> In sp U -> under (rootsP sc) sp = true ->
+    (forall e, In e il -> In (act_tbl (snd e)) U) ->
+    (forall t, In t (common sc) -> is_shared S0 t = true) ->
+    well_scoped sc (tag P ilP) = true -> well_scoped sc (tag C ilC) = true ->
+    interleave (tag P ilP) (tag C (startup sp ++ ilC)) il ->
+    raced (run S0 il) = false.
+Definition C08_statement : Prop := statement_with child_startup.
+
 (* ---- second part: fully synchronized programs.  Each critical section (mutex held) or channel
    hand-off is one atomic update of the program's shared store; the generated programs only use
    commutative updates (add k to variable v). *)
